@@ -168,12 +168,22 @@ func c14Once(c *mon.Ctx) {
 			c.R.Count("label_table_passes_after_churn", 1)
 		}
 	}
+	if len(seen) < 8 { // the label table is already refuted; the probes below are built from it
+		return
+	}
 	c14OnceRest(c, seen)
 }
 
 // (b) labels
 func c14LabelTable(c *mon.Ctx, when string) map[string]lint.LintStatus {
 	seen := map[string]lint.LintStatus{}
+	// the eight statuses are the values 0..7 in the documented order (exported constants are part of what is "stable")
+	for i, st := range []lint.LintStatus{lint.Reserved, lint.NA, lint.NE, lint.Pass, lint.Notice, lint.Warn, lint.Error, lint.Fatal} {
+		if int(st) != i {
+			c.V(fmt.Sprintf("status-value-changed|%d", i), fmt.Sprintf("the status constant documented as %q (value %d) now has the value %d (%s)", c14Labels[lint.LintStatus(i)], i, int(st), when), "", nil, nil)
+			return seen
+		}
+	}
 	for st := lint.Reserved; st <= lint.Fatal; st++ {
 		b, err := json.Marshal(st)
 		c.R.Count("evaluations", 1)
